@@ -247,4 +247,13 @@ def run(tier):
     # ---- R4 wake-up: a suspended context whose awaited promise settled must become ready whatever route settled it
     import c08
     c08.wake_up_rule(fx, ck, "R4.wake-up")
+    # R6 slot index domain (zero-expected, fixture controls)
+    import slotindex
+    nsl = slotindex.rule(fx, ck)
+    ck.anchor(nsl >= 1, "an aggregate pairing `index` with a shared state that holds `results` (Promise.all)")
+    ck3 = Check("C07", tier, "", [])
+    slotindex.rule(F.load_fixture(), ck3, prefix="c07::")
+    bad = {fd[1] for fd in ck3.findings}
+    if not any("all_bad" in k for k in bad) or any("all_good" in k for k in bad):
+        ck.closed_fail.append("R6 control failed: fixture reports %s" % sorted(bad))
     return ck.finish()
